@@ -1,0 +1,17 @@
+//go:build verif
+
+package http
+
+// Comment-only file: contracts read by /verif's govc (see pkg/oidc/zz_verif_contracts.go).
+
+//@ func httphelper.MarshalJSONWithStatus
+//@   requires once: !Resp_written[w]
+//@   modifies Resp_written[w], Resp_status[w], Resp_body[w], os(w)
+//@   ensures written: Resp_written[w] && Resp_status[w] == status
+//@   defines body: Resp_body[w] == i
+
+//@ func httphelper.MarshalJSON
+//@   requires once: !Resp_written[w]
+//@   modifies Resp_written[w], Resp_status[w], Resp_body[w], os(w)
+//@   ensures written: Resp_written[w] && Resp_status[w] == 200
+//@   ensures body: Resp_body[w] == i
